@@ -134,10 +134,24 @@ Proof.
   destruct b as [|c b]; cbn [find is_empty negb first_nonempty]; [exact IH|reflexivity].
 Qed.
 
+(* independent of how the selection is spelled after the `find` (`.map(..).unwrap_or(..)` | `.map_or(.., ..)` | `match` | `if let`):
+   `find p bufs` for ANY predicate that is pointwise "not empty" (same lemma as Proofs/StreamGen.v find_first_nonempty) *)
+Lemma wc_find_first_nonempty (p : list N -> bool) (bufs : list (list N)) :
+  (forall b, p b = negb (is_empty b)) ->
+  find p bufs = match first_nonempty bufs with [] => None | b => Some b end.
+Proof.
+  intros Hp. induction bufs as [|b rest IH]; [reflexivity|].
+  cbn [find first_nonempty]. rewrite Hp. destruct b as [|c b]; cbn [is_empty negb]; [exact IH|reflexivity].
+Qed.
+
 Lemma g_wcs_write_vectored_first x bufs : g_wcs_write_vectored x bufs = g_wcs_write x (first_nonempty bufs).
 Proof.
-  unfold g_wcs_write_vectored. cbv zeta. rewrite wc_find_nonempty_is_first_nonempty.
-  destruct (g_wcs_write x (first_nonempty bufs)) as [[x1 r]|]; reflexivity.
+  unfold g_wcs_write_vectored. cbv zeta.
+  match goal with
+  | |- context [find ?p bufs] => rewrite (wc_find_first_nonempty p bufs) by (intros [|? ?]; reflexivity)
+  end.
+  destruct (first_nonempty bufs); cbn [opt_unwrap_or option_map].
+  all: match goal with |- context [g_wcs_write ?y ?b] => destruct (g_wcs_write y b) as [[? ?]|] end; reflexivity.
 Qed.
 
 Definition g_wcs_op (x : wcstream) (o : sop) : option (wcstream * sres) :=
